@@ -33,6 +33,9 @@ type Ev struct {
 	Site ssa.Instruction
 	// Subst: for a helper event, how the helper's parameters read in the anchor's terms.
 	Subst map[*ssa.Parameter]string
+	// Way: for a return split per way into a merge of result values (splitReturn), the block
+	// through which this way enters the merge: what dominates that block precedes this return.
+	Way *ssa.BasicBlock
 }
 
 // At is the instruction that locates the event inside the anchor function: the event's own
@@ -251,7 +254,7 @@ func (p *Prog) splitReturn(fn *ssa.Function, ret *ssa.Return) []*Ev {
 			}
 			return v
 		}
-		e := &Ev{Fn: fn, In: ret, Kind: "return", Held: held}
+		e := &Ev{Fn: fn, In: ret, Kind: "return", Held: held, Way: pr}
 		for _, rv := range res {
 			e.Args = append(e.Args, Desc(subst(rv)))
 		}
@@ -469,6 +472,35 @@ func (f *F) Closure(rule string, i int) *F {
 					return &F{q: f.q, fn: m, Name: f.q.p.FuncName(m), evs: f.q.p.Events(m)}
 				}
 			}
+		}
+		// `go x.named(a, b)` / `go named(a, b)` instead of `go func() {…}()`: the i-th private
+		// function of the package that this function starts as a goroutine, read with its
+		// parameters in the caller's terms
+		var started []*ssa.Go
+		EachInstr(f.fn, func(in ssa.Instruction) {
+			if g, ok := in.(*ssa.Go); ok {
+				if sc := g.Call.StaticCallee(); sc != nil && sc.Blocks != nil && sc.Pkg == f.fn.Pkg && sc.Parent() == nil && lowerName(sc.Name()) {
+					started = append(started, g)
+				}
+			}
+		})
+		if k := i - len(f.fn.AnonFuncs); k >= 0 && k < len(started) {
+			g := started[k]
+			sc := g.Call.StaticCallee()
+			saved := descSubst
+			ns := map[*ssa.Parameter]string{}
+			for kk, v := range saved {
+				ns[kk] = v
+			}
+			for j, par := range sc.Params {
+				if j < len(g.Call.Args) {
+					ns[par] = Desc(g.Call.Args[j])
+				}
+			}
+			descSubst = ns
+			evs := f.q.p.Events(sc)
+			descSubst = saved
+			return &F{q: f.q, fn: sc, Name: f.q.p.FuncName(sc), evs: evs}
 		}
 		f.q.r.Bad(rule, "anchor:"+f.Name+fmt.Sprintf("$%d", i+1), "-", "ANCHOR-MISSING: closure not found")
 		return &F{q: f.q, Name: f.Name + "$?"}
@@ -773,6 +805,34 @@ func (q *Q) OnlyIn(rule, key string, got map[string][]string, allowed []string, 
 				}
 			}
 			if !ok {
+				// a private function started only by `go` statements of one function is
+				// the goroutine closure of that function under a name
+				if homes := q.p.goStartedBy(k); len(homes) > 0 {
+					var tgt []string
+					for _, h := range homes {
+						t := ""
+						if al[h] {
+							t = h
+						}
+						for _, a := range allowed {
+							if strings.HasPrefix(a, h+"$") {
+								t = a
+							}
+						}
+						if t == "" {
+							tgt = nil
+							break
+						}
+						tgt = append(tgt, t)
+					}
+					if len(tgt) > 0 {
+						for _, t := range tgt {
+							got[t] = append(got[t], got[k]...)
+						}
+						delete(got, k)
+						continue
+					}
+				}
 				extra = append(extra, k+" ("+strings.Join(got[k], ",")+")")
 				continue
 			}
@@ -1178,6 +1238,9 @@ func evDominates(d, e *Ev) bool {
 	if d.In == e.In {
 		return false
 	}
+	if e.Way != nil && e.Site == nil && d.At().Parent() == e.In.Parent() {
+		return d.At().Block() == e.Way || d.At().Block().Dominates(e.Way) || InstrDominates(d.At(), e.In)
+	}
 	if d.Site != nil && e.Site != nil && d.Site == e.Site && d.In.Parent() == e.In.Parent() {
 		return InstrDominates(d.In, e.In)
 	}
@@ -1247,6 +1310,39 @@ func (p *Prog) attributedTo(name string) []string {
 	}
 	sort.Strings(names)
 	return names
+}
+
+// goStartedBy: the functions whose `go` statements are the only uses of the private,
+// non-closure function `name` (nil if it is used in any other way).
+func (p *Prog) goStartedBy(name string) []string {
+	if p.byName == nil {
+		p.attributedTo(name)
+	}
+	name = strings.SplitN(name, "#", 2)[0]
+	fn := p.byName[name]
+	if fn == nil || fn.Parent() != nil || !lowerName(fn.Name()) {
+		return nil
+	}
+	n := p.CG().Nodes[fn]
+	if n == nil {
+		return nil
+	}
+	set := map[string]bool{}
+	for _, e := range n.In {
+		if !p.moduleFunc(e.Caller.Func) || e.Site == nil {
+			continue
+		}
+		if _, isGo := e.Site.(*ssa.Go); !isGo || e.Site.Common().StaticCallee() != fn {
+			return nil
+		}
+		set[p.FuncName(e.Caller.Func)] = true
+	}
+	var out []string
+	for k := range set {
+		out = append(out, k)
+	}
+	sort.Strings(out)
+	return out
 }
 
 // singleUse: fn (an unexported, non-closure function of the module) has exactly one static
